@@ -157,6 +157,11 @@ def gen_case(rng, level, faulty, long_chain=False, long_ttl=False):
             else:
                 ops.append({"op": "qrowc", "id": rng.randrange(NPK), "u": _draws(rng, 1)})
             continue
+        if rng.random() < 0.004:
+            # the query callback PANICS inside the shared flight (the caller recovers): like a failing query for the
+            # cache (one query, nothing stored), and the key's flight must be released: later reads run under a watchdog
+            ops.append({"op": "qrowp", "id": rng.randrange(NPK), "u": _draws(rng, 1)})
+            continue
         if rng.random() < 0.03:
             # the database query fails with an error other than not-found
             ops.append({"op": "qrowe", "id": rng.randrange(NPK), "u": _draws(rng, 1)})
@@ -426,6 +431,19 @@ def case_more_retries_than_workers():
             "nnodes": 1, "ops": ops}
 
 
+def case_exec_cancelled_in_callback():
+    """one fixed case (2.3 s of real time, CachedConn level): the context of an ExecCtx is cancelled INSIDE the exec
+    callback, after the database changed, with Redis healthy; the DEL then fails with the context error, and the key must
+    be invalidated by the background retry (the cleaner's own 1 s wheel): after the wait a read returns the current row"""
+    ops = [{"op": "exec", "w": ["put", 1, 0, 7], "keys": [["pk", 1], ["ix", 0]]}, {"op": "qrow", "id": 1, "u": [5]},
+           {"op": "qidx", "ix": 0, "u": [5, 6]}, {"op": "qrow", "id": 2, "u": [5]},
+           {"op": "execc", "w": ["put", 1, 0, 8], "keys": [["pk", 1]]},
+           {"op": "execc", "w": ["put", 2, 1, 9], "keys": [["pk", 2], ["ix", 1]]},
+           {"op": "wait", "dt": 2300},
+           {"op": "qrow", "id": 1, "u": [5]}, {"op": "qrow", "id": 2, "u": [5]}, {"op": "qidx", "ix": 0, "u": [5, 6]}]
+    return {"level": "sqlc", "expire": 100, "nfexpire": 10, "nnodes": 1, "ctor": "nodeconn", "opts": "both", "ops": ops}
+
+
 def case_idle_stat_interval(secs=62):
     """THOROUGH tier only (about a minute of real time; cache.statInterval is a constant one-minute real ticker that
     neither the virtual clock nor a hook can shorten): the cache gets a statistics object of its own, nothing is asked
@@ -441,6 +459,7 @@ def generate(rng, tier, n):
     cases = []
     if tier != "search":
         cases.append(case_more_retries_than_workers())
+        cases.append(case_exec_cancelled_in_callback())
     if tier == "thorough" or os.environ.get("VERIF_C06_IDLE") == "1":
         cases.append(case_idle_stat_interval())
     nconc = max(1, n // 4)
@@ -505,6 +524,14 @@ def search(rng, problems):
                 {"op": "exec", "w": ["put", 1, 0, 8], "keys": [["pk", 1]], "ctxc": True}, {"op": "del", "keys": [["pk", 2]], "ctxc": True, "go": True},
                 {"op": "adv", "dt": 2}, {"op": "fault", "node": -1, "g": False, "s": False, "d": False}, {"op": "adv", "dt": 5},
                 {"op": "qrow", "id": 1, "u": [5]}, {"op": "adv", "dt": 1}]})
+    # a panicking query callback, then reads of the same key
+    for level in ("sqlc", "node", "cluster"):
+        c = {"level": level, "expire": 100, "nfexpire": 10, "nnodes": 3 if level == "cluster" else 1, "ops": [
+            {"op": "exec", "w": ["put", 1, 0, 7], "keys": [["pk", 1]]}, {"op": "qrowp", "id": 1, "u": [5]}, {"op": "qrow", "id": 1, "u": [5]},
+            {"op": "qrowp", "id": 2, "u": [5]}, {"op": "qrowp", "id": 2, "u": [5]}, {"op": "qrow", "id": 2, "u": [5]}, {"op": "qrowp", "id": 1, "u": [5]}]}
+        if level != "sqlc":
+            c.update({"ctor": "new", "opts": "both", "wheel": "abs"})
+        out.append(c)
     # exec callbacks returning every kind of result while the key is cached
     for res in ("", "one", "zero", "err"):
         out.append({"level": "sqlc", "expire": 100, "nfexpire": 10, "nnodes": 1, "ops": [
@@ -622,7 +649,7 @@ def cres(o):
     if r == "row":
         a = o["row"]
         return "(RRow %s %s %s)" % (cnat(a[0]), cnat(a[1]), cnat(a[2]))
-    return {"nf": "RNotFound", "cerr": "RCacheErr", "ok": "ROk", "execerr": "RExecErr", "ctx": "RCtxErr", "dberr": "RDbErr"}.get(r, "RUnmodelled")
+    return {"nf": "RNotFound", "cerr": "RCacheErr", "ok": "ROk", "execerr": "RExecErr", "ctx": "RCtxErr", "dberr": "RDbErr", "panic": "RDbErr"}.get(r, "RUnmodelled")
 
 
 def cop(o):
@@ -630,10 +657,16 @@ def cop(o):
     u = (o.get("u") or [512]) + [512, 512]
     if k == "qrow":
         return "XQRow %s %s" % (cnat(o["id"]), cZ(u[0]))
+    if k == "qrowp":
+        return "XQRowE %s" % cnat(o["id"])
     if k == "qrowe":
         return "XQRowE %s" % cnat(o["id"])
     if k in ("gc", "idle"):
         return "XGc"
+    if k == "execc":
+        return "XExecC %s %s" % (cwrite(o["w"]), clist([ckey(x) for x in o["keys"]]))
+    if k == "wait":
+        return "XTick"
     if k == "qrowc":
         return "XQRowC %s" % cnat(o["id"])
     if k == "qidxc":
@@ -821,6 +854,8 @@ def bucket(case, obs):
         out.append("delete-under-request-context")
     if case.get("workers", 1) > 1:
         out.append("more-due-retries-than-workers")
+    if any(o["op"] == "execc" for o in case["ops"]):
+        out.append("exec-context-cancelled-in-callback")
     if any(o["op"] == "idle" for o in case["ops"]):
         out.append("idle-stat-interval")
     if case.get("ctor") and case["level"] != "sqlc":
@@ -851,6 +886,8 @@ def bucket(case, obs):
             out.append("via:%s:%s" % (o["via"], ob["r"] if not ob["r"].startswith("err:") else "err"))
         if o["op"] == "qrowe":
             out.append("db-error:" + ob["r"])
+        if o["op"] == "qrowp":
+            out.append("query-panics:" + (ob["r"] if not ob["r"].startswith("err:") else "err"))
     if any(o["op"] == "gc" for o in case["ops"]):
         out.append("gc-between-deletes")
     if any(o.get("go") for o in case["ops"]):
